@@ -366,10 +366,11 @@ package memfs
 //@   field root immutable
 //@ define FsInv(fs ref) bool = fs.root != nil && isa(fs.root, "memfs.Dir") && Tree()
 //@ func NewFilespace [C01 C09]
-//@   requires Tree()
+//@   requires [C01 C04 C09] Tree()
 //@   modifies $none
 //@   allocates memfs.Dir
-//@   ensures result1 == nil && typeis(result0, "*memfs.Filespace") && FsInv(as(result0, "*memfs.Filespace"))
+//@   ensures [C01 C04 C09] result1 == nil && typeis(result0, "*memfs.Filespace") && FsInv(as(result0, "*memfs.Filespace"))
+//@   ensures result1 == nil && result0 != nil && fresh(payload(result0))
 // listings and contents are snapshots
 //@ func (*Dir).getNodes [C01 C09]
 //@   requires DirInv(d)
